@@ -107,10 +107,16 @@ P("C14", [f"{SEL}:_IndexingMixin._process_slice", f"{TOP}:get"], "bounded/C14.py
   "are covered by the bounded tier.", level="other",
   unverified=["_tableops.get enum/bytes decoding", "RangeSelector1D.__getitem__/fetch", "api.annotate"])
 
-P("C15", [f"{UT}:parse_cooler_uri"], "bounded/C15.py",
-  "Proof core: URI splitting for all strings; file-level operations are explored by the bounded tier against a "
-  "ghost model of two HDF5 files (all operation sequences up to a length bound).", level="other",
-  unverified=["fileops._copy/cp/mv/ln", "is_cooler/list_coolers", "create() mode/frame"])
+P("C15", [f"{UT}:parse_cooler_uri", "cooler.fileops:_copy"], "bounded/C15.py",
+  "Proof core: URI splitting for all strings, and the branch logic of fileops._copy (behind cp/mv/ln) over a ghost "
+  "operation log of two h5py handles, for all flag combinations, group paths and same/different files: the "
+  "destination file is opened for truncation iff it is absent or overwrite was asked, the source is never opened "
+  "for truncation, every write creates exactly the destination group (or, for a root destination across files, "
+  "its four children and attributes), the only thing ever deleted is the source group of a move, a refused "
+  "combination writes nothing.  h5py's own semantics (hard link, deep copy, soft/external link) are assumed. "
+  "Sequences of operations on real files are explored by the bounded tier.", level="other",
+  unverified=["cp/mv/ln (one-line wrappers of _copy)", "is_cooler/list_coolers", "create() mode/frame",
+              "h5py link/copy semantics (assumed by the operation-log model)"])
 
 P("C16", [f"{ING}:_sanitize_pixels", f"{ING}:_validate_pixels", f"{RQ}:FillLowerRangeQuery2D.__init__", f"{RQ}:DirectRangeQuery2D.__init__"], "bounded/C16.py", "Proof core: the pieces of the dump/load paths that are under contract - the query engines dump iterates (exactly-once lemma, shared with C03) and the pre-binned-record sanitizer and validator cooler load runs every chunk through (shared with C05/C13). The option semantics of dump, the loaders' column mapping and the zoomify spec expansion are covered by the bounded tier (all 128 dump option subsets, all column permutations).",
   level="other", unverified=["cli.dump (option semantics)", "cli.load / cli.cload.pairs (column mapping)", "parse_field_param", "zoomify spec loop"])
